@@ -248,7 +248,12 @@ class SimTransport(asyncio.Transport):
         self.conn.client_closed = True
         self.conn.net.event(("close", self.conn.cid))
         self._conn_lost += 1
-        self._loop.call_soon(self._call_connection_lost, None)
+        delay = self.conn.net.close_delay_ticks
+        if delay:
+            # the peer takes a moment to finish closing: wait_closed() stays suspended meanwhile
+            self._loop.call_later(delay * TICK, self._call_connection_lost, None)
+        else:
+            self._loop.call_soon(self._call_connection_lost, None)
 
     def abort(self) -> None:
         if self._conn_lost:
@@ -344,6 +349,8 @@ class SimNet:
         self.accept = True
         self.latency_ticks = 1
         self.fail_next_write = False   # the next transport.write() on any connection fails
+        self.refuse_next = 0           # this many connection attempts fail although `accept` is on
+        self.close_delay_ticks = 0     # a close() by the client completes (connection_lost) this much later
         self.events: list[tuple] = []
         self.conns: list[SimConn] = []
         self._live: list[SimConn] = []          # connections not yet seen dead (pruned lazily: long runs open 10^5)
@@ -371,6 +378,21 @@ class SimNet:
         self.error_index = getattr(self, "error_index", -1) + 1
         return self.ERRORS[self.error_index % len(self.ERRORS)](msg)
 
+    # ... and a connection attempt fails in many ways too (the first of a run is the classic refusal)
+    DIAL_ERRORS = (
+        lambda: ConnectionRefusedError("simulated refusal"),
+        lambda: OSError(113, "No route to host (simulated)"),               # EHOSTUNREACH
+        lambda: TimeoutError(110, "Connection timed out (simulated)"),      # ETIMEDOUT
+        lambda: OSError(101, "Network is unreachable (simulated)"),         # ENETUNREACH
+        lambda: __import__("socket").gaierror(-3, "Temporary failure in name resolution (simulated)"),
+        lambda: ConnectionRefusedError("simulated refusal"),
+        lambda: ConnectionAbortedError("simulated abort during the handshake"),
+    )
+
+    def next_dial_error(self) -> OSError:
+        self.dial_error_index = getattr(self, "dial_error_index", -1) + 1
+        return self.DIAL_ERRORS[self.dial_error_index % len(self.DIAL_ERRORS)]()
+
     def take_events(self) -> list[tuple]:
         evs, self.events = self.events, []
         return evs
@@ -384,9 +406,11 @@ class SimNet:
         self.event(("dial", host, port))
         latency = self.latency_ticks
         await asyncio.sleep(latency * TICK)
-        if not self.accept:
+        if not self.accept or self.refuse_next > 0:
+            if self.refuse_next > 0:
+                self.refuse_next -= 1
             self.event(("refused",))
-            raise ConnectionRefusedError("simulated refusal")
+            raise self.next_dial_error()
         conn = SimConn(len(self.conns), self)
         self.conns.append(conn)
         self._live.append(conn)
